@@ -1,7 +1,10 @@
 (* Extract/Cmd_serde.v — observation commands of the serde properties (C07) on the MODEL side.
 
      ser <type> <value>    the seven encoding routes of lib/props/c07.py on the level of the value tree:
-                           `<route>=err(<kind>)` or `<route>=ok:<tree>;rt:<result>` with
+                           `<route>=err(<kind>)` or `<route>=ok:<tree>;rt:<result>[;lay:<layout>]` with
+                             layout  (document routes) the document after the root conversion and the pretty
+                                     visitor / DocumentFormatter (Model/SerFmt.v): the tree with table kinds
+                                     L array, T inline table, H [header] table, A [[array of tables]]
                              tree    the TOML value tree (token syntax of harness/src/bin/serde/dynty.rs:
                                      S<hex> I<dec> D<16 hex> B0|B1 X<hex text> L<n> .. T<n> S<key> ..)
                              result  what the matching deserializer makes of that tree at the same type:
@@ -12,7 +15,7 @@
      fidelity <n>          `-` (a self-check of the Rust harness; nothing to model)
    `-` is also the answer for a type outside the modelled universe (the untyped `toml::Value` leaf). *)
 From TV Require Import Base.Prelude Base.Utf8 Model.Datetime Model.DatetimeStd Model.SerNum
-  Spec.SerdeData Model.Ser Model.De Extract.Show.
+  Spec.SerdeData Model.Ser Model.De Model.SerFmt Extract.Show.
 Require Import String.
 
 (* ---- tokens ---- *)
@@ -239,11 +242,24 @@ Definition show_rt (r : result sval) : bytes :=
   | Err _ => str "ERR"
   end.
 
-Definition show_route (name : string) (r : result tomlval) (de : tomlval -> result sval) : bytes :=
+(* the layout of a document: L array, T inline table, H [header] table, A [[array of tables]] *)
+Fixpoint item_tokens (it : item) : list bytes :=
+  match it with
+  | ILeaf x => tv_tokens x
+  | IArr xs => (str "L" ++ show_nat (List.length xs)) :: flat_map item_tokens xs
+  | IInl es => (str "T" ++ show_nat (List.length es)) :: flat_map (fun kx => (str "S" ++ hexs (fst kx)) :: item_tokens (snd kx)) es
+  | ITab es => (str "H" ++ show_nat (List.length es)) :: flat_map (fun kx => (str "S" ++ hexs (fst kx)) :: item_tokens (snd kx)) es
+  | IAot ts => (str "A" ++ show_nat (List.length ts)) :: flat_map item_tokens ts
+  end.
+Definition show_item (it : item) : bytes := join (str ",") (item_tokens it).
+
+Definition show_route (name : string) (r : result tomlval) (de : tomlval -> result sval)
+           (lay : option (tomlval -> item)) : bytes :=
   str name ++ str "=" ++
   match r with
   | Err e => str "err(" ++ show_err e ++ str ")"
   | Ok x => str "ok:" ++ show_tv x ++ str ";rt:" ++ show_rt (de x)
+            ++ match lay with Some f => str ";lay:" ++ show_item (f x) | None => [] end
   end.
 
 Definition cmd_ser (tys vals : bytes) : bytes :=
@@ -255,9 +271,10 @@ Definition cmd_ser (tys vals : bytes) : bytes :=
     let toml := ser_toml_root t v in
     let edit := ser_edit_root t v in
     join (str " ")
-         [show_route "tp" toml (de_value t); show_route "tpp" toml (de_value t);
-          show_route "ep" edit (de_value t); show_route "epp" edit (de_value t); show_route "doc" edit (de_value t);
-          show_route "val" (tv_ser t v) (tv_de t); show_route "tab" (tv_ser_table t v) (tv_de t)]
+         [show_route "tp" toml (de_value t) (Some doc_toml); show_route "tpp" toml (de_value t) (Some doc_toml);
+          show_route "ep" edit (de_value t) (Some doc_edit_plain); show_route "epp" edit (de_value t) (Some doc_edit_pretty);
+          show_route "doc" edit (de_value t) (Some doc_edit_plain);
+          show_route "val" (tv_ser t v) (tv_de t) None; show_route "tab" (tv_ser_table t v) (tv_de t) None]
   | _, _ => str "BADCASE"
   end.
 
